@@ -48,6 +48,17 @@ func c07Ints(thorough bool) []int64 {
 		add(v)
 		add(-v)
 	}
+	// every power of two and its neighbours (table sizes, bit masks, word boundaries of any cache or fast path)
+	for k := 1; k <= 62; k++ {
+		if !thorough && k > 20 && k%4 != 0 && k != 31 && k != 33 && k != 53 && k != 62 {
+			continue
+		}
+		p := int64(1) << uint(k)
+		for _, v := range []int64{p - 1, p, p + 1} {
+			add(v)
+			add(-v)
+		}
+	}
 	add(math.MinInt64)
 	add(math.MinInt64 + 1)
 	return out
@@ -468,7 +479,7 @@ func c07Replay(b []byte) (string, string, bool) {
 func init() {
 	h.Register(&h.Check{
 		ID: "C07",
-		Rule: "complete boundary grid: every unary and binary evaluable functor of the statement over all (pairs of) values of an integer grid dense around 0, 2^31, 2^32, sqrt(2^63), 2^53, 2^62, 2^63 and a float grid of all magnitudes/signs, in all four int/float combinations; all shift counts 0..63; the six comparison predicates over the same pairs; all depth-2 expression trees over a reduced grid; a depth sweep 0..70 (300) of left- and right-nested chains whose bottom (and top) is ONE compound bound to a variable beforehand (a shared sub-expression), next to the same chains without sharing. A case is non-trivial when the reference defines its outcome (value set or error kind); distinct = distinct goal text.",
+		Rule: "complete boundary grid: every unary and binary evaluable functor of the statement over all (pairs of) values of an integer grid dense around 0, 2^31, 2^32, sqrt(2^63), 2^53, 2^62, 2^63 plus every power of two up to 2^20 (thorough: 2^62) with its neighbours and a float grid of all magnitudes/signs, in all four int/float combinations; all shift counts 0..63; the six comparison predicates over the same pairs; all depth-2 expression trees over a reduced grid; a depth sweep 0..70 (300) of left- and right-nested chains whose bottom (and top) is ONE compound bound to a variable beforehand (a shared sub-expression), next to the same chains without sharing. A case is non-trivial when the reference defines its outcome (value set or error kind); distinct = distinct goal text.",
 		Explanation: "state = one expression (or comparison) over the grid; transition = one evaluation of it by the real interpreter (X is E / E1 op E2 through Query) compared with the math/big + IEEE-754 reference; every case is a one-step trace validated against the implementation",
 		Assumptions: []string{
 			"reference: integers with math/big and ISO 9.1/9.3/9.4 definitions (// truncating, div flooring, mod sign of divisor, rem sign of dividend); floats: Go float64 arithmetic is IEEE-754 binary64",
